@@ -19,7 +19,8 @@ Arguments fill : simpl never.
 
 (* VHStr: a string built by interpolation (a static prop such as title="Hello {{ name }}"): literal
    pieces and holes *)
-Inductive val := VNil | VBool (b : bool) | VStr (s : bytes) | VList (l : list val) | VHole (b : bool) | VHStr (h : hstr).
+Inductive val := VNil | VBool (b : bool) | VStr (s : bytes) | VList (l : list val) | VHole (b : bool) | VHStr (h : hstr)
+               | VNum (n : nat).      (* a loop index, a front-matter number *)
 
 (* replace every hole by the concrete string *)
 Fixpoint subst (s : bytes) (v : val) : val :=
@@ -37,6 +38,7 @@ Definition is_lit (c : bytes + bool) : bool := match c with inl _ => true | inr 
 Definition truthy (v : val) : option bool :=
   match v with
   | VNil => Some false | VBool b => Some b | VStr s => Some (truthy_str s) | VList _ => Some true | VHole b => Some b
+  | VNum n => Some (negb (Nat.eqb n 0))
   | VHStr h => if forallb is_lit h then Some (truthy_str (fill [] h))
                else match h with [inr b] => Some b | _ => None end
   end.
@@ -50,6 +52,7 @@ Fixpoint sprint (v : val) : hstr :=
   | VStr s => [inl s]
   | VHole b => [inr b]
   | VHStr h => h
+  | VNum n => [inl (dec_nat n)]
   | VList l => [inl [x5b]] ++ tl (flat_map (fun x => inl sp :: sprint x) l) ++ [inl [x5d]]   (* [a b c] *)
   end.
 
@@ -72,6 +75,7 @@ Inductive tnode :=
 | TChain (br : list (name * list tnode)) (el : list tnode) (* v-if / v-else-if ... / v-else *)
 | TEq (x : name) (lit : bytes) (th : list tnode)          (* v-if="x == 'lit'": inspects content *)
 | TFor (v coll : name) (body : list tnode)
+| TFor2 (i v coll : name) (body : list tnode)               (* v-for="(i, v) in coll": zero-based index *)
 | TInclude (f : nat) (p : list tprop) (content : list tnode)
 | TSlot (fb : list tnode).
 
@@ -140,6 +144,12 @@ Section WithEv.
     | [] => Ok []
     | it :: rest => bind (evals_with c ((v, it) :: r) body) (fun a => bind (loop_with v c r body rest) (fun b => Ok (a ++ b)))
     end.
+  Fixpoint loop2_with (i v : name) (k : nat) (c : clo) (r : env) (body : list tnode) (items : list val) : res (list onode) :=
+    match items with
+    | [] => Ok []
+    | it :: rest => bind (evals_with c ((v, it) :: (i, VNum k) :: r) body)
+                      (fun a => bind (loop2_with i v (S k) c r body rest) (fun b => Ok (a ++ b)))
+    end.
   Fixpoint chain_with (c : clo) (r : env) (br : list (name * list tnode)) (el : list tnode) : res (list onode) :=
     match br with
     | [] => evals_with c r el
@@ -152,7 +162,7 @@ Section WithEv.
 End WithEv.
 
 Section World.
-Variable W : list (list tnode).        (* the component files *)
+Variable W : list (env * list tnode).   (* the component files: front-matter (authoritative over props) and body *)
 Fixpoint eval (fuel : nat) (c : clo) (r : env) (t : tnode) {struct fuel} : res (list onode) :=
   match fuel with O => OutOfFuel | S f =>
   let evals := evals_with (eval f) in
@@ -183,10 +193,17 @@ Fixpoint eval (fuel : nat) (c : clo) (r : env) (t : tnode) {struct fuel} : res (
       | Some (VHStr h) => if forallb is_lit h then Ok [] else ErrInspect
       | _ => Ok []
       end
+  | TFor2 i v coll body =>
+      match lookup r coll with
+      | Some (VList items) => loop2_with (eval f) i v 0 c r body items
+      | Some (VHole _) => ErrInspect
+      | Some (VHStr h) => if forallb is_lit h then Ok [] else ErrInspect
+      | _ => Ok []
+      end
   | TInclude fi p content =>
       match nth_error W fi with
       | None => ErrOther
-      | Some body => bind (eval_props r p) (fun pe => evals (CSome r content c) (pe ++ r) body)
+      | Some (fm, body) => bind (eval_props r p) (fun pe => evals (CSome r content c) (fm ++ pe ++ r) body)
       end
   | TSlot fb =>
       match c with
